@@ -7,12 +7,12 @@ from pathlib import Path
 
 VERIF = Path(__file__).resolve().parent
 name, src, pid = sys.argv[1], Path(sys.argv[2]), sys.argv[3]
-logs = [Path(p) for p in sys.argv[4:]]
+logs = [Path(p) for p in sys.argv[4:]] or sorted((VERIF / 'seeded' / 'confirm_logs').glob('*.log'))
 res_line = ''
 for lg in logs:
     if lg.exists():
         for line in lg.read_text().splitlines():
-            if line.startswith(f'RESULT {name} '):
+            if line.startswith(f'RESULT {name} ') and ('demo_changed_rc=1' in line or not res_line):
                 res_line = line
 m = re.search(r'demo_changed_rc=(\d+) demo_unchanged_rc=(\d+) suite=\[(.*)\]', res_line)
 if not m:
@@ -22,7 +22,7 @@ confirmed = rc1 == 1 and rc0 == 0 and re.search(r'\b94003 passed\b', suite) and 
 out = VERIF / 'seeded' / name
 out.mkdir(parents=True, exist_ok=True)
 for f in ('patch.diff', 'demo.py', 'README.txt'):
-    if (src / f).exists():
+    if (src / f).exists() and (src / f).resolve() != (out / f).resolve():
         shutil.copy(src / f, out / f)
 readme = (src / 'README.txt').read_text() if (src / 'README.txt').exists() else ''
 
